@@ -9,7 +9,8 @@ CONSTANTS
   Leaky = FALSE
   Alphabet <- AllCmds
   Kinds <- AllKinds
+  Ctxs <- MainCtx
 INIT Init
 NEXT Next
-INVARIANTS EntryIsForkImage TrapRule SharedDescriptions Final Emit
+INVARIANTS NoForeignTrapAction EntryIsForkImage TrapRule SharedDescriptions Final Emit
 PROPERTIES Isolation CopyNotReference
